@@ -7,6 +7,7 @@ import (
 	"os"
 	"path/filepath"
 	"regexp"
+	"slices"
 	"sort"
 	"strings"
 	"time"
@@ -407,6 +408,19 @@ func c20Build(c *fw.Ctx, p c20Param) *schedInst {
 				if name != "x" && name != "y" && name != "z" {
 					return "ghost", fmt.Sprintf("a listing of bucket b, concurrent with %v, shows an object %q that no request ever created", p.Threads, name), "ghost"
 				}
+			}
+		}
+		// ... and never misses an object that existed before, throughout and after the mix (y, unless the mix contains
+		// the batch that deletes y or the deletion of the bucket)
+		removesY := false
+		for _, n := range p.Threads {
+			if n == "Batch" || n == "DeleteBucket" {
+				removesY = true
+			}
+		}
+		for i, n := range p.Threads {
+			if strings.TrimSuffix(n, "@ctx") == "List" && lastStatus[i] == 200 && !removesY && !slices.Contains(listed[i], "y") {
+				return "unlisted", fmt.Sprintf("a listing of bucket b, concurrent with %v, answered 200 with %v: object y, which exists throughout, is missing", p.Threads, listed[i]), "unlisted"
 			}
 		}
 		// previously stored data intact: an upload into the fresh bucket that was acknowledged (and that nothing in
